@@ -10,6 +10,7 @@ CONSTANTS
   WithEnv = TRUE
   Depth = 9
   GenActs <- ActsReads
+  Shape <- ShapeAny
 INIT GenInit
 NEXT GenNext
 CONSTRAINT Emit
